@@ -465,7 +465,8 @@ class Normalizer:
             t.cls is None and t.parent is None and not t.decorators
             and t.name not in self.ctx.repo.exported_names()
             and (private or (
-                t.module.name != (getattr(self, "_root_module", None) or fi.module.name)
+                key not in PUBLIC_CALLABLES  # a name of the pinned public surface stays a rule-visible call
+                and t.module.name != (getattr(self, "_root_module", None) or fi.module.name)
                 and t.module.name.rsplit(".", 1)[-1].startswith("_")))
         ):
             return t
